@@ -375,6 +375,7 @@ func CfgC02() PropCfg {
 	w := DefaultWeights()
 	w.Block = 26
 	w.PoorPct = 30
+	w.Donate = 8 // coins sent straight to an escrow must end up with the auctioneer, not stranded
 	return PropCfg{ID: "C02", Weights: w, MinOps: 10, MaxOps: 60, DrivePct: 85,
 		New: func() Monitor { return &monC02{} },
 		NonTrivial: func(h *History) bool {
